@@ -26,7 +26,6 @@ def design_check(module, cfg, **kw):
         if os.path.exists(path):
             with open(path) as fh:
                 return json.load(fh)
-    kw.setdefault('heap', '4g')
     res = core.tlc_check(module, cfg, **kw)
     if path and res.get('ok'):
         os.makedirs(cache, exist_ok=True)
@@ -335,7 +334,7 @@ def run(rep, tier, seed, replay, prop, names, relevant, rule, rf1=False, mc_quic
     designs = [mc_quick, 'MC_Replication_late.cfg'] if tier == 'quick' else ['MC_Replication_late_thorough.cfg', 'MC_Replication_thorough.cfg', 'MC_Replication_alive.cfg',
                                                    'MC_Replication_acks.cfg', 'MC_Replication_fallback.cfg']
     for cfg in designs:
-        res = design_check('MC_Replication.tla', cfg, timeout=3 * 3600, coverage=False)
+        res = design_check('MC_Replication.tla', cfg, timeout=3 * 3600, coverage=False, heap='4g' if tier == 'quick' else None)
         rep.add_design(cfg, res)
     behaviours = probe_stimuli(rep) + mutant_stimuli(rep)
     import json
